@@ -52,6 +52,10 @@ def configure_logging():
     logging.StreamHandler.emit = quiet_emit
     logging.FileHandler.emit = quiet_emit
     logging.raiseExceptions = False
+    try:
+        import senaite.astm  # noqa  (the package sets its logger to INFO when it is imported: import it first)
+    except Exception:
+        pass
     lg = logging.getLogger("senaite.astm")
     lg.setLevel(logging.DEBUG)
     if not any(isinstance(h, logging.NullHandler) for h in lg.handlers):
